@@ -485,14 +485,24 @@ def part_from_matchfile(
     onset_in_beats = np.array([note.OnsetInBeats for note in snotes])
     unique_onsets, inv_idxs = np.unique(onset_in_beats, return_inverse=True)
 
-    iois_in_beats = np.diff(unique_onsets)
     beat_to_quarter = 4 / beat_type_map_from_beats(onset_in_beats)
 
-    iois_in_quarters_offset = np.r_[
-        beat_to_quarter[0] * onset_in_beats[0],
-        (4 / beat_type_map_from_beats(unique_onsets[:-1])) * iois_in_beats,
-    ]
-    onset_in_quarters = np.cumsum(iois_in_quarters_offset)
+    # integrate the beat length piecewise: a time signature change between
+    # two consecutive onsets is an integration knot as well
+    ts_times = np.array([t for t, _, _ in ts], dtype=float)
+    knots = np.unique(
+        np.r_[
+            unique_onsets,
+            ts_times[(ts_times > unique_onsets[0]) & (ts_times < unique_onsets[-1])],
+        ]
+    )
+    knots_in_quarters = np.cumsum(
+        np.r_[
+            beat_to_quarter[0] * onset_in_beats[0],
+            (4 / beat_type_map_from_beats(knots[:-1])) * np.diff(knots),
+        ]
+    )
+    onset_in_quarters = knots_in_quarters[np.searchsorted(knots, unique_onsets)]
     iois_in_quarters = np.diff(onset_in_quarters)
 
     # ___ these divs are relative to quarters;
